@@ -306,7 +306,7 @@ func c15Cow(p *Prog, r *Report, prefix string) {
 	rule := prefix + ".cow"
 	atomicsRule := prefix + ".atomics"
 	r.Rule(rule, "the published host slice is never written through (no element store, no append or copy into it); writers publish fresh slices with atomic.Value.Store while holding the balancer mutex; Remove drops the host with the matching key")
-	r.Rule(atomicsRule, "the balancer's rotating counter is accessed only through sync/atomic; the published slice only through atomic.Value")
+	r.Rule(atomicsRule, "the balancer's rotating counter is accessed only through sync/atomic and only ever advanced by one (never reset, swapped or stored); the published slice only through atomic.Value")
 	lb, plan := lbTypes(p)
 	lbHosts := p.Field("proxycore", lb.Obj().Name(), "hosts")
 	lbIndex := p.Field("proxycore", lb.Obj().Name(), "index")
@@ -510,6 +510,16 @@ func c15Cow(p *Prog, r *Report, prefix string) {
 			if c, isCall := acc.Instr.(*ssa.Call); isCall {
 				if f := c.Call.StaticCallee(); f != nil && f.Pkg != nil && f.Pkg.Pkg.Path() == "sync/atomic" {
 					ok = true
+					// rotation: the counter only ever moves forward by one per plan
+					switch {
+					case strings.HasPrefix(f.Name(), "Load"):
+					case strings.HasPrefix(f.Name(), "Add"):
+						if d, isC := constInt(c.Call.Args[1]); !isC || d != 1 {
+							ab = append(ab, fmt.Sprintf("%s: the rotating counter is advanced by something other than 1 in %s: consecutive plans no longer start at consecutive hosts", p.Pos(c.Pos()), acc.Fn.Name()))
+						}
+					default:
+						ab = append(ab, fmt.Sprintf("%s: the rotating counter is rewritten (%s) in %s: after a reset the next plan starts at host 0 whatever host the previous plan started at, so consecutive plans are not at consecutive hosts unless the reset point is a multiple of the host count", p.Pos(c.Pos()), f.Name(), acc.Fn.Name()))
+					}
 				}
 			}
 		}
